@@ -20,6 +20,7 @@ from mc.checks.c01_common import (
     SIG_JSON_KEY,
     SIG_JSON_NONFINITE,
     YAML_FORMATS,
+    has_none,
     json_key_root_cause,
     json_nonfinite_root_cause,
     judge_reparse,
@@ -152,7 +153,11 @@ SPECIFIC = {
     "range": ["range(3)", "range(1, 3)", "range(0, 10, 2)", "range(0)", "range(5, 1, -1)", "range(0, 1)"],
     "Any": [[], {}, [1, "1", 1.0, True, None], {"a": None}, {"a": {"b": [1.0, "x", "1e3"]}}, [None], {"1": 1}, {"null": "null"},
             [[1], [2.5]], {"k": INF}, [NAN], {"class_path": "x"}, "a: [1, 2]", "- 1\n- 2", "{a: 1e3}", "[.inf]", 1e300,
-            "{1: a}", "{null: 1, true: 2}"],
+            "{1: a}", "{null: 1, true: 2}",
+            # importable class specs held by an Any value (serialised through the class's own parser)
+            {"class_path": LIB + ".KwOnly", "dict_kwargs": {"level": 3, "s": "1e3"}},
+            {"class_path": LIB + ".SubA", "init_args": {"s": "null", "opt": None}},
+            {"class_path": LIB + ".KwNamed", "init_args": {"size": None}, "dict_kwargs": {"k": None}}],
 }  # fmt: skip
 
 # reduced pools of the core leaves, used inside constructors
@@ -262,8 +267,20 @@ CLASS_VALUES = [
     {"class_path": "SubC"},
     {"init_args": {"a": 3}},
     None,
+    # classes taking free-form keyword arguments: the accepted value carries dict_kwargs, with and without
+    # init_args (KwOnly has no named parameter at all), and an Optional named parameter whose default is not None
+    {"class_path": "KwOnly"},
+    {"class_path": "KwOnly", "dict_kwargs": {"level": 3, "mode": "fast"}},
+    {"class_path": LIB + ".KwOnly", "dict_kwargs": {"s": "1e3", "t": "true", "n": None, "l": [1, "1", None], "e": "", "d": {"null": "1"}}},
+    {"class_path": "KwOnly", "dict_kwargs": {}},
+    {"class_path": "KwOnly", "init_args": {"level": 3}},
+    {"class_path": "KwNamed", "dict_kwargs": {"level": "null"}},
+    {"class_path": "KwNamed", "init_args": {"size": None}},
+    {"class_path": "KwNamed", "init_args": {"size": None}, "dict_kwargs": {"level": 3.0, "x y": "a: 1"}},
+    {"class_path": LIB + ".KwNamed", "init_args": {"size": 2}, "dict_kwargs": {"other": None}},
 ]  # fmt: skip
-CLASS_DEFAULTS = [UNSET, {"class_path": LIB + ".SubA", "init_args": {"a": 5}}, {"class_path": LIB + ".SubB"}, None]
+CLASS_DEFAULTS = [UNSET, {"class_path": LIB + ".SubA", "init_args": {"a": 5}}, {"class_path": LIB + ".SubB"}, None,
+                  {"class_path": LIB + ".KwNamed", "dict_kwargs": {"level": 1}}]  # fmt: skip
 
 
 def subst(v, cwd):
@@ -487,6 +504,7 @@ def _typed_case(case, cwd):
         configs.append(("argv", c_argv, None))
     res["key"] = json.dumps([shape, tspec, case["default"], mode, [tcanon(c) for _, c, _ in configs]], sort_keys=True, default=repr)
     res["nontrivial"] = _nontrivial(configs, mk, drop)
+    res["spec_kinds"] = sorted({k for _, c, _ in configs for k in _spec_kinds(c)})
     raised = set()  # dump channels that deviated for this case (a failing --print_config with the same flags is the same root cause)
     reported = set()  # (format, class) already reported by a more basic channel of this case: one root cause, one signature
 
@@ -530,7 +548,9 @@ def _typed_case(case, cwd):
                 if cls and fmt in JSON_FORMATS and mode == "yaml" and json_key_root_cause(c0, neutralise_none(c0, c1) if modulo_none and c1 is not None else c1):
                     res["devs"].append((SIG_JSON_KEY, f"[{channel} {fmt}] config {short(c0)} text {text!r}: {detail}"))
                     continue
-                if cls and "skip_default" in channel and not cls.startswith("reparse-") and _dict_items_root_cause(p, c0, detail, drop):
+                if cls and "skip_default" in channel and not cls.startswith("reparse-") and _dict_kwargs_root_cause(c0, c1, detail):
+                    cls = "class-spec:dict_kwargs-not-compared-with-default"
+                elif cls and "skip_default" in channel and not cls.startswith("reparse-") and _dict_items_root_cause(p, c0, detail, drop):
                     cls = "dict-valued-argument:items-compared-with-default-items"
                 if cls and "skip_default" in channel and cls not in KEEP_CLASSES and not cls.startswith("reparse-") and _left_out(p, c0, c1, drop):
                     cls = "non-default-entry-left-out"  # one root cause whatever the type of the value
@@ -567,14 +587,27 @@ def _typed_case(case, cwd):
         # -- default dump (drops None entries): judged on the entries that are not None
         report("dump-skip_none", *run_dump_channel("dump-skip_none", (f0,), modulo_none=True), (f0,))
         report("dump-skip_none+skip_default", *run_dump_channel("dump-skip_none+skip_default", (f0,), modulo_none=True, skip_default=True), (f0,))
+        # -- dump without validation (the per-action serialisation takes a separate branch), nulls kept
+        # (structured shapes; on the flat parser the same branch is taken by the multi-file save below, for every case)
+        if shape != "flat":
+            sv_fmts = formats if save_all else (f0,)
+            report("dump-skip_validation", *run_dump_channel("dump-skip_validation", sv_fmts, skip_none=False, skip_validation=True), sv_fmts)
 
         # -- save -> parse_path
         outdir = "out/" if shape in FILE_SHAPES else ""
         single = formats if save_all else (f0,)
         variants = [("save", fmt, {"format": fmt, "skip_none": False, "multifile": False}, False) for fmt in single]
-        variants.append(("save-default", f0, {}, True))
-        if raw is not None and shape in FILE_SHAPES:
-            variants.append(("save-multifile", f0, {"skip_none": False}, False))
+        if shape == "flat" and not save_all:
+            # quick tier, flat parser: single-file save writes exactly the text of the dump channel above; the
+            # file channel is exercised through the multi-file (default) mode below
+            variants = []
+        # default save() drops None entries; without a None entry it writes what the nulls-kept multi-file save
+        # below writes, so it is run where it can differ: configurations holding a None, and the file shapes
+        if shape in FILE_SHAPES or save_all or has_none(c0):
+            variants.append(("save-default", f0, {}, True))
+        # multi-file save (the default mode) with nulls kept, on every shape: its final dump takes the
+        # skip_validation path of the per-action serialisation, also when no sub-config file is involved
+        variants.append(("save-multifile", f0, {"skip_none": False}, False))
         single_ok = False
         for i, (channel, fmt, kw, modulo_none) in enumerate(variants):
             path = f"{outdir}saved_{i}.{'json' if fmt in JSON_FORMATS else 'yaml'}"
@@ -670,7 +703,38 @@ def _typed_case(case, cwd):
 
 
 KEEP_CLASSES = {"numeric-type-changed-value-equal", "class_path-differs", DECIMAL_VIA_FLOAT,
-                "dict-valued-argument:items-compared-with-default-items"}
+                "dict-valued-argument:items-compared-with-default-items",
+                "class-spec:dict_kwargs-not-compared-with-default"}
+
+
+def _dict_kwargs_root_cause(c0, c1, detail):
+    """skip_default channel: the first difference lies inside the dict_kwargs of a class spec whose class_path and
+    init_args came back unchanged (skip_default compares the init_args of a class-typed value with the default's
+    and never looks at dict_kwargs, so a value that differs from the default in dict_kwargs only is left out)."""
+    import re
+
+    from mc.util import teq
+
+    m = re.match(r"at (\$[^:]*):", detail)
+    if not m or c1 is None:
+        return False
+    a, b = c0, c1
+    for seg in re.findall(r"\.([^.\[]+)|\[(\d+)\]", m.group(1)[1:]):
+        key = seg[0] if seg[0] else int(seg[1])
+        if isinstance(a, argparse.Namespace) and isinstance(b, argparse.Namespace):
+            if key == "dict_kwargs" and "class_path" in vars(a):
+                return teq(vars(a).get("class_path"), vars(b).get("class_path")) and teq(vars(a).get("init_args"), vars(b).get("init_args"))
+            if key not in vars(a) or key not in vars(b):
+                return False
+            a, b = vars(a)[key], vars(b)[key]
+        elif isinstance(a, (list, tuple, dict)) and isinstance(b, type(a)):
+            try:
+                a, b = a[key], b[key]
+            except (KeyError, IndexError, TypeError):
+                return False
+        else:
+            return False
+    return False
 
 
 def _dict_items_root_cause(p, c0, detail, drop):
@@ -693,6 +757,8 @@ def _dict_items_root_cause(p, c0, detail, drop):
             break
         if seg not in vars(node) or not isinstance(dnode, argparse.Namespace) or seg not in vars(dnode):
             return False
+        if seg == "dict_kwargs" and "class_path" in vars(node):
+            return False  # the free-form keyword arguments of a class spec are not a dict-valued argument
         node, dnode = vars(node)[seg], vars(dnode)[seg]
     return type(node) is dict and isinstance(dnode, dict) and bool(set(map(repr, node)) & set(map(repr, dnode)))
 
@@ -712,6 +778,31 @@ def _left_out(p, c0, c1, drop):
         if k in vars(c1) and not teq(vars(c0)[k], vars(c1)[k]):
             return k in vars(dflt) and teq(vars(c1)[k], vars(dflt)[k])
     return False
+
+
+def _spec_kinds(v, where="value", _d=0):
+    """Which kinds of class specs a configuration holds (vacuity guards): (position, has init_args, has dict_kwargs,
+    holds a None among its init_args)."""
+    out = set()
+    if _d > 12:
+        return out
+    if isinstance(v, argparse.Namespace):
+        d = vars(v)
+        if "class_path" in d:
+            ia = d.get("init_args")
+            out.add(f"{where}:{'init_args' if ia else 'no-init_args'}:{'dict_kwargs' if d.get('dict_kwargs') else 'no-dict_kwargs'}")
+            if isinstance(ia, argparse.Namespace) and any(x is None for x in vars(ia).values()):
+                out.add(f"{where}:None-init-arg")
+            where = "nested"
+        for x in d.values():
+            out |= _spec_kinds(x, where, _d + 1)
+    elif isinstance(v, (list, tuple)):
+        for x in v:
+            out |= _spec_kinds(x, "list-item" if where == "value" else where, _d + 1)
+    elif isinstance(v, dict):
+        for x in v.values():
+            out |= _spec_kinds(x, "dict-value" if where == "value" else where, _d + 1)
+    return out
 
 
 def _base_fmt(f):
@@ -849,9 +940,17 @@ def typed_cases(tier):
                         continue
                     add(shape, t, d, v)
     # class-typed arguments
-    class_types = ["Base", ["Optional", "Base"]] + ([] if quick else [["List", "Base"], ["DictStr", "Base"]])
+    # class specs as the argument's value, as a Union member and as an item of a list / dict value (an item replaces
+    # the previous item as a whole when the serialised value is put back, a Namespace-valued argument is merged)
+    class_types = ["Base", ["Optional", "Base"], ["List", "Base"], ["DictStr", "Base"]]
     for t in class_types:
-        for d in CLASS_DEFAULTS[:3] if quick and t != "Base" else CLASS_DEFAULTS:
+        if not quick:
+            cds = CLASS_DEFAULTS
+        elif t == "Base":
+            cds = [d for d in CLASS_DEFAULTS if d is not None]  # quick: default None behaves like the unset default
+        else:
+            cds = CLASS_DEFAULTS[:2] if t[0] == "Optional" else CLASS_DEFAULTS[:1]
+        for d in cds:
             if isinstance(t, list) and d != UNSET and d is not None:
                 if t[0] == "List":
                     d = [d]
@@ -862,7 +961,8 @@ def typed_cases(tier):
                     v = [v, CLASS_VALUES[4]] if v is not None else []
                 elif isinstance(t, list) and t[0] == "DictStr":
                     v = {"k": v, "1": CLASS_VALUES[4]} if v is not None else {}
-                add("class", t, d, v, pc=pc_full if t == "Base" or not quick else [""])
+                # quick: every --print_config flag with the first two defaults, plain and =skip_default with the others
+                add("class", t, d, v, pc=pc_full if not quick or (t == "Base" and d in CLASS_DEFAULTS[:2]) else (["", "skip_default"] if t == "Base" else [""]))
     if not quick:
         # dataclass-typed leaves directly
         for t in ("Point", "Outer", ["Optional", "Outer"], ["List", "Point"]):
@@ -894,7 +994,10 @@ def explore_typed(ctx, nontrivial):
     keys = set()
     types_accepting = set()
     sampled = 0
+    spec_kinds = {}
     for r in ctx.pmap(typed_worker, cases):
+        for k in r.get("spec_kinds", ()):
+            spec_kinds[k] = spec_kinds.get(k, 0) + 1
         tot["rt"] += r["rt"]
         tot["ops"] += r["ops"]
         st = r["status"].split(":")[0]
@@ -921,6 +1024,8 @@ def explore_typed(ctx, nontrivial):
         ctx.count("typed.accepted.shape_" + k, v)
     for k, v in sorted(channels.items()):
         ctx.count("typed.roundtrips." + k, v)
+    for k, v in sorted(spec_kinds.items()):
+        ctx.count("typed.accepted.class_spec." + k, v)
     ctx.note("worker CPU seconds: typed layer " + ", ".join(f"{k} {v:.0f}" for k, v in sorted(cpu.items())) + f"; total {sum(cpu.values()):.0f}")
     ctx.count("typed.cases", len(cases))
     ctx.count("typed.distinct_accepted_configurations", len(keys))
@@ -933,8 +1038,13 @@ def explore_typed(ctx, nontrivial):
         (f"typed layer: every parser of the space can be built (not buildable: {status.get('parser-not-buildable', 0)})", status.get("parser-not-buildable", 0) == 0),
         ("typed layer: accepted and rejected cases both occur", status.get("accepted", 0) > 1000 and status.get("rejected", 0) > 100),
         (f"typed layer: every parser shape has accepted cases ({sorted(set(shapes) - set(per_shape))})", set(shapes) == set(per_shape)),
-        ("typed layer: every channel executed (dump, skip_default, skip_none, print_config at root and at subcommand level, save, save-default, save-multifile)",
-         all(channels.get(c, 0) > 0 for c in ("dump", "dump-skip_default", "dump-skip_none", "print_config", "print_config-subcommand", "save", "save-default", "save-multifile"))),
+        ("typed layer: every channel executed (dump, skip_default, skip_none, skip_validation, print_config at root and at subcommand level, save, save-default, save-multifile)",
+         all(channels.get(c, 0) > 0 for c in ("dump", "dump-skip_default", "dump-skip_none", "dump-skip_validation", "print_config", "print_config-subcommand", "save", "save-default", "save-multifile"))),
+        ("typed layer: the multi-file save with nulls kept ran on every parser shape, not only on those with a sub-config file",
+         channels.get("save-multifile", 0) >= 0.9 * status.get("accepted", 0)),
+        (f"typed layer: class specs with dict_kwargs and without init_args were accepted as argument value, list item and dict value ({sorted(spec_kinds)})",
+         all(spec_kinds.get(f"{w}:no-init_args:dict_kwargs", 0) > 0 and spec_kinds.get(f"{w}:init_args:dict_kwargs", 0) > 0 and spec_kinds.get(f"{w}:None-init-arg", 0) > 0
+             for w in ("value", "list-item", "dict-value"))),
     ]  # fmt: skip
     return {
         "rt": tot["rt"],
@@ -947,7 +1057,12 @@ def explore_typed(ctx, nontrivial):
             "shapes": ["flat"] + SHAPES + ["class"],
             "shape_types": SHAPE_TYPES,
             "modes": ["yaml", "json"],
-            "channels": ["dump x formats x skip_default", "dump default (skip_none)", "--print_config[=skip_default|skip_null|comments|skip_default,skip_null] -> --cfg",
-                         "save single-file x formats -> parse_path", "save default", "save multifile with sub-config file"],
+            "class_positions": ["Base", "Optional[Base]", "List[Base]", "Dict[str, Base]", "Any holding a class spec"],
+            "class_spec_forms": ["class name / path", "init_args", "dict_kwargs only (class with **kwargs and no named parameter)", "init_args + dict_kwargs",
+                                 "Optional init arg with non-None default set to None", "nested class argument", "missing required init arg (rejected)"],
+            "channels": ["dump x formats x skip_default", "dump default (skip_none)", "dump skip_validation (structured shapes; thorough: x formats)",
+                         "--print_config[=skip_default|skip_null|comments|skip_default,skip_null] -> --cfg",
+                         "save single-file x formats -> parse_path (quick: structured shapes)", "save default (configurations holding a None, file shapes)",
+                         "save multifile with nulls kept on every shape (with sub-config file on the file shapes)"],
         },  # fmt: skip
     }
